@@ -247,6 +247,11 @@ def info_schema(ctx):
             if "CompoundFile::<F>::exists(" in e or "contains_key(" in e or "BTreeMap::<K, V, A>::is_empty(" in e or "Option>::eq(" in e or "PartialEq" in e and "Option" in e:
                 continue
             extra.append((e[:70], tr))
+        if m in ("range", "foreign_key"):
+            nn = [e for (e, tr, g) in So.bool_facts_at(bb) if "Value::is_null(" in e and tr is False]
+            ctx.check(len(nn) >= 2, R, "reader applies %s() only when BOTH of its cells are present" % m, "%d non-null tests dominate" % len(nn),
+                      "open restores %s from its two _Validation cells without requiring both to be non-null (%d dominating non-null tests): a row that has only one of them makes "
+                      "open fail, or feeds a null into the builder" % (m, len(nn)), o.loc(bt["sp"]), fn=o.name, key="%s|both|%s" % (R, m))
         ctx.check(not extra, R, "reader applies %s() whenever the cells are present" % m, "", "open applies ColumnBuilder::%s only under the extra condition(s) %s: some attribute values that "
                   "create_table wrote are dropped on reopen" % (m, extra), o.loc(bt["sp"]), fn=o.name, key="%s|guard|%s" % (R, m))
     pair = {"is_nullable": "nullable", "value_range": "range", "foreign_key": "foreign_key", "category": "category", "enum_values": "enum_values"}
